@@ -44,6 +44,11 @@ class HarnessError(Exception):
     """An exception that did not pass through chi: a bug of the harness."""
 
 
+class CaseTimeout(BaseException):
+    """Raised by the per-case watchdog. Derives from BaseException because chi's
+    likelihoods swallow every Exception raised below simulate()."""
+
+
 def install_warning_policy():
     """chi swallows every simulate() exception into -inf + RuntimeWarning.
     Turn exactly that warning into an error so harness/shim/chi errors surface.
@@ -108,7 +113,7 @@ class Case(object):
             self.inconclusive[name] += 1
         except HarnessError:
             raise
-        except (KeyboardInterrupt, SystemExit, MemoryError):
+        except (KeyboardInterrupt, SystemExit, MemoryError, CaseTimeout):
             raise
         except BaseException as e:  # noqa
             kind = exc_kind(e)
